@@ -94,15 +94,50 @@ impl<'a> Die<'a> {
         die.attr(DW_AT_byte_size).and_then(|val| val.udata_value())
     });
 
-    impl_no_virt!(discr_value, Option<i64>, |_, die: GimliDie| {
-        die.attr(DW_AT_discr_value)
-            .and_then(|val| val.sdata_value())
-    });
+    /// Return a value of `DW_AT_discr_value` attribute.
+    ///
+    /// # Arguments
+    ///
+    /// * `unsigned`: size of a discriminant type if it is unsigned, see [`Die::int_const`]
+    pub fn discr_value(&self, unsigned: Option<u64>) -> Option<i64> {
+        self.int_const(DW_AT_discr_value, unsigned)
+    }
 
-    impl_no_virt!(const_value, Option<i64>, |_, die: GimliDie| {
-        die.attr(DW_AT_const_value)
-            .and_then(|val| val.sdata_value())
-    });
+    /// Return a value of `DW_AT_const_value` attribute.
+    ///
+    /// # Arguments
+    ///
+    /// * `unsigned`: size of an underlying type if it is unsigned, see [`Die::int_const`]
+    pub fn const_value(&self, unsigned: Option<u64>) -> Option<i64> {
+        self.int_const(DW_AT_const_value, unsigned)
+    }
+
+    /// Return an integer constant. Constant forms don't carry a sign (`0xff` in
+    /// `DW_FORM_data1` is 255 for `u8` and -1 for `i8`), so it depends on a type of the constant.
+    /// A constant of an unsigned type is returned as `i64` with the same bits, exactly
+    /// like a number of this type that has been read from the debugee memory.
+    ///
+    /// # Arguments
+    ///
+    /// * `unsigned`: `None` for a signed type, size of a type in bytes for an unsigned one
+    fn int_const(&self, attr: DwAt, unsigned: Option<u64>) -> Option<i64> {
+        let Die::Dwarf { die, .. } = self else {
+            unimplemented!()
+        };
+        let value = die.attr(attr)?;
+
+        let Some(byte_size) = unsigned else {
+            return value.sdata_value();
+        };
+        let mask = match byte_size {
+            1..=7 => (1u64 << (byte_size * 8)) - 1,
+            _ => u64::MAX,
+        };
+        value
+            .udata_value()
+            .or_else(|| value.sdata_value().map(|v| v as u64))
+            .map(|v| (v & mask) as i64)
+    }
 
     impl_no_virt!(
         location,
